@@ -3,8 +3,10 @@
 
    WHAT IS MODELLED
      Pipeline.subpipeline(inputs, output_names) incl. node_mapping lookups, _find_nodes_between
-       (descendants-of-inputs intersect ancestors-of-outputs), the drop loop, and the two final checks of the
-       repaired code (requested outputs must survive; new root arguments must be provided or keep a default)
+       (descendants-of-inputs intersect ancestors-of-outputs; only used without output_names), _find_required_nodes
+       (with output_names: the functions the outputs depend on, cut at the provided names), dropping at once, the
+       restoration of lost defaults, and the final checks (requested outputs must survive; new root arguments must
+       be provided or keep a default)
      prepare_run: _flatten_scopes (identity), subpipeline(set(inputs), output_names) when output_names is given
        or auto_subpipeline, _validate_complete_inputs
      run_map for scalar-only pipelines (storage="dict", parallel=False): every function of the (sub)pipeline once,
@@ -32,30 +34,52 @@ Definition leaf_fids (p : pipeline) : list str :=
 
 Definition keep (p : pipeline) (b : list str) : pipeline := filter (fun f => mem_str (fid f) b) p.
 
-(* the drop loop: `for f in drop: pipeline.drop(f=f)`; every drop re-validates the remaining pipeline, and
-   validate_consistent_defaults can fail once a parameter is no longer fed by a (dropped) producer *)
-Definition consistent_all (p : pipeline) : bool := consistent_defaults p.
-Fixpoint drop_loop (cur : pipeline) (drop : list pfunc) : result pipeline :=
-  match drop with
-  | [] => Ok cur
-  | f :: t =>
-      let cur' := filter (fun g => negb (str_eqb (fid g) (fid f))) cur in
-      if consistent_defaults cur' then drop_loop cur' t else Err ValueError
-  end.
+(* _find_required_nodes(graph, provided, output_nodes) (repaired code): the ancestors of the output nodes in the
+   graph WITHOUT the edges all of whose names are provided - an edge (n -> f) stays iff f reads, through an unbound
+   parameter that is not provided, the node n *)
+Definition cut_graph (p : pipeline) (I : list str) : graph :=
+  {| nodes := nodes (graph_of p);
+     edges := flat_map (fun f => map (fun n => (n, fid f))
+                                     (dedup (flat_map (fun cur => if mem_str cur I then []
+                                                                  else match dep_node p f cur with Some n => [n] | None => [] end)
+                                                      (pnames f)))) p |}.
+Definition required (p : pipeline) (I outs : list str) : list str :=
+  flat_map (ancestors (cut_graph p I)) outs ++ outs.
 
-(* Pipeline.subpipeline(inputs=I, output_names=S); S = None means "all leaf nodes" *)
+(* `for arg in root_args: if arg in self.defaults and arg not in pipeline.defaults: pipeline.update_defaults(...)`:
+   a root argument of the sub-pipeline keeps the default it has in the full pipeline; update_defaults stores it in
+   every function that has the parameter unbound *)
+Definition lost_defaults (p q : pipeline) : alist :=
+  flat_map (fun r => match pdefault p r with
+                     | Some v => if mem_str r (akeys (pdefaults q)) then [] else [(r, v)]
+                     | None => []
+                     end) (root_arg_names q).
+Definition with_defaults (extra : alist) (f : pfunc) : pfunc :=
+  mkf (fname f) (outs f) (params f)
+      (dflt f ++ filter (fun kv => mem_str (fst kv) (pnames f) && negb (ahas (bound f) (fst kv))) extra)
+      (bound f) (cached f).
+
+(* Pipeline.subpipeline(inputs=I, output_names=S); S = None means "all leaf nodes".  Repaired code: with
+   output_names the kept functions are the required ones (not descendants(inputs) & ancestors(outputs)), the
+   other functions are dropped at once (one validation of the result), lost defaults are restored. *)
 Definition subpipeline (p : pipeline) (I : list str) (S : option (list str)) : result pipeline :=
   do ins <- mapM (node_of p) I;
   do outs <- match S with Some l => mapM (node_of p) l | None => Ok (leaf_fids p) end;
-  let b := between (graph_of p) ins outs in
-  do p' <- drop_loop p (filter (fun f => negb (mem_str (fid f) b)) p);
-  if match S with Some l => negb (forallb (is_output p') l) | None => false end
-  then Err ValueError                                (* a requested output did not survive *)
+  let b := match S with
+           | Some _ => required p I outs
+           | None => between (graph_of p) ins outs
+           end in
+  let q := keep p b in
+  if negb (consistent_defaults q) then Err ValueError          (* pipeline._validate() *)
   else
-    let with_defaults := inter_str (akeys (pdefaults p')) (akeys (pdefaults p)) in
-    if forallb (fun r => mem_str r with_defaults || mem_str r I) (root_arg_names p')
-    then Ok p'
-    else Err ValueError.                             (* "it would require {new_root_args}" *)
+    let p' := map (with_defaults (lost_defaults p q)) q in
+    if match S with Some l => negb (forallb (is_output p') l) | None => false end
+    then Err ValueError                                (* a requested output did not survive *)
+    else
+      let wd := inter_str (akeys (pdefaults p')) (akeys (pdefaults p)) in
+      if forallb (fun r => mem_str r wd || mem_str r I) (root_arg_names p')
+      then Ok p'
+      else Err ValueError.                             (* "it would require {new_root_args}" *)
 
 (* _validate_complete_inputs *)
 Definition validate_complete_inputs (p : pipeline) (inputs : alist) : result unit :=
@@ -200,3 +224,12 @@ Definition computableb (p : pipeline) (I S : list str) : bool :=
 (* every provided name is read by a needed function *)
 Definition all_readb (p : pipeline) (I S : list str) : bool :=
   subset_str I (flat_map (kw_names_read p (kw_of I)) S).
+
+(* the needed functions agree on the defaults of every intermediate name that no needed function produces (a
+   PROVIDED intermediate name: its producer is cut off and the name becomes a root argument of the sub-pipeline).
+   Where this fails Pipeline._validate refuses the sub-pipeline (known finding c11-inconsistent-dead-defaults). *)
+Definition dead_defaults_okb (p : pipeline) (I S : list str) : bool :=
+  let nd := flat_map (needed_top p (kw_of I)) S in
+  let d := flat_map (fun f => filter (fun kv => negb (ahas (bound f) (fst kv)) && is_output p (fst kv)
+                                                && negb (existsb (fun h => mem_str (fst kv) (outs h)) nd)) (dflt f)) nd in
+  forallb (fun kv => forallb (fun kv' => negb (str_eqb (fst kv) (fst kv')) || str_eqb (snd kv) (snd kv')) d) d.
